@@ -744,6 +744,10 @@ try
     for (auto const &arg: args)
       iterations *= arg.size ();
 
+    // An argument that yielded nothing leaves nothing to run the query on.
+    if (iterations == 0)
+      return 1;
+
     if (iterations > 1)
       with_header = true;
     if (no_header)
